@@ -194,7 +194,7 @@ def random_name(rng, sep="/", hostile=True, maxlen=5, forbid=("", ".", "..")):
         elif hostile and r < 0.7:
             pool = PLAIN_CHARS + NONASCII
         s = "".join(rng.choice(pool) for _ in range(ln))
-        if sep and sep in s:
+        if sep and any(c in s for c in sep):
             continue
         if s in forbid:
             continue
@@ -222,7 +222,7 @@ def unique_sibling_names(rng, ch_lists, sep="/", hostile=True, ignorecase=False,
             for _ in range(200):
                 if small:
                     s = rng.choice(["a", "b", "A", "B", "ab", "a.b", "a*", "x", "sub0", "sub1", "a+", "[a]", "(a)"])
-                    if sep in s:
+                    if any(c in s for c in sep):
                         continue
                     if not wild and ("*" in s or "?" in s):
                         continue
